@@ -228,6 +228,39 @@ let dispatch (req : string list) (impl : string list) : string * string =
       else (match version_output a stdin N0 with OOk t -> "OK " ^ field_of_str t | OErr -> "ERR" | OPanic -> "PANIC")
     in
     (reply, (match impl with "PANIC" :: _ -> "BAD:panic" | "REPARSE-FAILED" :: _ -> "BAD:emitted-zerv-does-not-parse" | _ -> "NA"))
+  | "FLW" :: mode :: _ ->
+    let c = { Zenc.f = Array.of_list req; Zenc.i = 2 } in
+    let stdin =
+      if List.nth req 2 = "~" then (c.Zenc.i <- 3; None)
+      else (let z = Zenc.zerv c in Some (Some z))
+    in
+    if Zenc.next c <> "A" then failwith "expected A";
+    let n = int_of_string (Zenc.next c) in
+    let argv = List.init n (fun _ -> let b = Wire.bytes_of_hexfield (Zenc.next c) in String.init (List.length b) (fun i -> Char.chr (List.nth b i))) in
+    if Zenc.next c <> "X" then failwith "expected X";
+    let ron = (match Zenc.next c with "~" -> None | "!" -> Some None | "R" -> Some (Some (Zenc.schema c)) | o -> failwith ("ron " ^ o)) in
+    let rules =
+      match Zenc.next c with
+      | "~" -> None
+      | "K" ->
+        let k = int_of_string (Zenc.next c) in
+        Some (List.init k (fun _ ->
+          let r_pattern = str_of_field (Zenc.next c) in
+          let r_label = (match Zenc.next c with "alpha" -> Alpha | "beta" -> Beta | "rc" -> Rc | o -> failwith ("label " ^ o)) in
+          let r_num = Zenc.num c in
+          let r_mode = (match Zenc.next c with "tag" -> ModeTag | "commit" -> ModeCommit | o -> failwith ("mode " ^ o)) in
+          { r_pattern; r_label; r_num; r_mode }))
+      | o -> failwith ("rules " ^ o)
+    in
+    let now = n_of_dec (Zenc.next c) in
+    let f = Args.parse_flow argv ron rules in
+    let reply =
+      if mode = "zerv" then
+        (match flow_zerv f stdin now with OOk z -> "OK " ^ Zenc.enc_zerv z | OErr -> "ERR" | OPanic -> "PANIC")
+      else (match flow_output f stdin now with OOk t -> "OK " ^ field_of_str t | OErr -> "ERR" | OPanic -> "PANIC")
+    in
+    (reply, (match impl with "PANIC" :: _ -> "BAD:panic" | "REPARSE-FAILED" :: _ -> "BAD:emitted-zerv-does-not-parse" | _ -> "NA"))
+  | [ "BRR"; _ ] -> failwith "unused"
   | [ "CNV"; inf; outf; prefix; s ] ->
     let fmt_of = function "semver" -> FSemver | "pep440" -> FPep440 | "auto" -> FAuto | o -> failwith ("fmt " ^ o) in
     let pre = match opt_str_of_field prefix with Some p -> p | None -> [] in
